@@ -47,7 +47,15 @@ type evT struct {
 type filterT struct {
 	Addrs []int   `json:"addrs"`
 	Keys  [][]int `json:"keys"`
-	Huge  bool    `json:"huge"`
+	Huge  int     `json:"huge"` // 1 = one position with 1023 keys no event has (at the limit), 2 = 1024 of them (over)
+}
+
+// eff is the filter the request really carries (RpcEvents!Eff).
+func (f *filterT) eff() *filterT {
+	if f.Huge == 1 {
+		return &filterT{Addrs: f.Addrs, Keys: [][]int{{99}}}
+	}
+	return f
 }
 
 type tokT struct {
@@ -602,7 +610,7 @@ func (w *world) oracle(st *step, canon map[string][]int, v8 bool) []page {
 			continue
 		}
 		for _, fe := range w.flat(b.txs) {
-			if matchEvent(a.F, fe.e) {
+			if matchEvent(a.F.eff(), fe.e) {
 				all = append(all, item{B: b.n, H: b.hash, T: fe.t, Ti: fe.ti, Ei: fe.ei})
 			}
 		}
